@@ -15,7 +15,7 @@ PY_TARGET = "PyLibSd PySrcSdBase PySrcSdTarget PySrcSdTargetFacts"   # _sd_algor
 PY_CORE = "PyLibCore PySrcCore PySrcCoreFacts"                    # succession_diagram.py: _update_node_depth, _ensure_edge, _ensure_node, _expand_one_node, node_successors, node_is_minimal, __len__, root
 PY_CORE2 = PY_CORE + " PyLibCore2 PySrcCore2 PySrcCore2Facts PySrcInitFacts"    # succession_diagram.py: skip_to_minimal, skip_remaining, depth, reclaim_node_data
 PY_MIN = "PyLib PyLibSd PyLibCore PyLibSd2 PySrcSdBase PySrcSdMin PySrcSdMinFacts"   # _sd_algorithms/expand_minimal_spaces.py
-PY_PERC = "PyLib PyLibSd PyLibPerc PySrcPerc PySrcPercFacts"       # space_utils.percolate_space_strict, percolation_conflicts
+PY_PERC = "PyLib PyLibSd PyLibPerc PySrcPerc PySrcPercFacts PyLibDrivers PySrcDrivers PySrcDriversFacts"       # space_utils.percolate_space_strict, percolation_conflicts
 PY_ASEEDS = PY_MIN + " Candidates Blocks ASeeds PySrcSdASeeds PySrcSdASeedsFacts"     # _sd_algorithms/expand_attractor_seeds.py
 EXTRA_IMPORTS = {"C02": PY_SD + " " + PY_CORE2 + " PySrcEndToEnd", "C03": PY_SD + " " + PY_ASEEDS + " PySrcComplFacts", "C04": PY_SD + " " + PY_CORE, "C05": PY_CORE2 + " " + PY_MIN, "C13": PY_SD + " " + PY_TARGET + " " + PY_ASEEDS + " PySrcTermFacts", "C14": PY_CORE2, "C15": PY_SD + " " + PY_TARGET + " " + PY_ASEEDS, "C16": "PyLib PyLibPickle PySrcPickle PySrcPickleFacts " + PY_CORE2,
                  "C06": PY_SPACE + " " + PY_TARGET + " PySrcEndToEndControl", "C10": PY_PLACE, "C11": PY_PERC, "C19": PY_SD + " " + PY_CORE, "C20": PY_KEY + " " + PY_CORE2}
@@ -356,6 +356,8 @@ Model: Brute.percolate_b (twin of AEON's percolate_subspace, compared with perco
 Strict.percolate_strict_ord (percolate_space_strict with the candidate set's iteration order as a parameter),
 conflicts_b, single_ldois, single_drivers.""",
  theorems=[("source_percolate_space_strict", "py_percolate_space_strict_spec", "translator tie: the function GENERATED from the current text of space_utils.percolate_space_strict (PySrcPerc.v; embedding PyLibPerc.v) computes the model's percolate_strict_b"),
+           ("source_find_single_node_LDOIs", "py_find_single_node_LDOIs_spec", "... drivers.find_single_node_LDOIs the model's single_ldois, and find_single_drivers (with or without a caller-supplied table) single_drivers"),
+           ("source_find_single_drivers", "py_find_single_drivers_spec", None),
            ("source_percolation_conflicts", "py_percolation_conflicts_spec", "... and percolation_conflicts(strict_percolation=False) the model's conflicts_b (as a duplicate-free set)"),
            ("is_percolation", "percolate_b_is_percolation", "reached by fixing, one at a time, free variables whose update function is constant on the space fixed so far; nothing more can be fixed"),
            ("unique", "percolation_unique", "independent of the order"), ("least", "percolate_b_least", "least fixed point"),
